@@ -26,7 +26,6 @@ Nothing of /repo is imported or executed."""
 from __future__ import annotations
 
 import ast
-from fractions import Fraction
 
 from . import e2_formula as F
 from .core import Unsupported
@@ -342,19 +341,6 @@ def _ends_in_raise(stmts):
     return False
 
 
-def _has_return(stmts):
-    for s in stmts:
-        stack = [s]
-        while stack:
-            n = stack.pop()
-            if isinstance(n, ast.Return):
-                return True
-            if isinstance(n, (ast.FunctionDef, ast.AsyncFunctionDef, ast.Lambda, ast.ClassDef)) and n is not s:
-                continue
-            stack.extend(ast.iter_child_nodes(n))
-    return False
-
-
 class CBEval(AutoEvaluator):
     def __init__(self, fn=None, world=None, facts=None, callv=None, inline=None, objs=(), handler_path=None, depth=0, **kw):
         super().__init__(fn, **kw)
@@ -369,7 +355,6 @@ class CBEval(AutoEvaluator):
         self.ctl = None                        # 'continue' | 'break'
         self.raised = None
         self.ambiguous = None                  # an undecided test guards a return: the returned value is not known
-        self._cache = []
         self.active = ()
 
     # ------------------------------------------------------------------ small helpers
@@ -433,8 +418,6 @@ class CBEval(AutoEvaluator):
 
     # ------------------------------------------------------------------ expressions
     def ev(self, node):
-        if self._cache and id(node) in self._cache[-1]:
-            return self._cache[-1][id(node)]
         try:
             return self._ev(node)
         except Unsupported as e:
